@@ -30,8 +30,10 @@
      (same transition as the open) -- so a process can give up while it owns the lock file, and then
      cleans up through closeIsolatedHandler (Exists + Remove again).
    - flock on the data file (second line of defence) is NOT modelled.
-   - `atomic c = true` is the repaired COMMIT that renames over the table (no Exists/Remove steps);
-     the pinned tree is `atomic c = false` (finding commit-remove-rename-window, DESIGN F-C10-1). *)
+   - `atomic c = true` is the COMMIT that renames over the table (no Exists/Remove steps): /repo since
+     the fix 4dfbb28; `atomic c = false` is the remove-then-rename COMMIT before it (finding
+     commit-remove-rename-window, DESIGN F-C10-1).  The harness looks which one the tree has (are the
+     yield points commit.exists / commit.remove reached?) and the cases carry the flag. *)
 From Coq Require Import Arith List Bool.
 Import ListNotations.
 
